@@ -138,6 +138,12 @@ fn fee_account_swap(cfg: &Cfg) -> Vec<(&'static str, Modify)> {
     v
 }
 
+/// the contract base also listed among the convertible denominations
+pub fn overlap(mut cfg: Cfg) -> Cfg {
+    cfg.convs = vec!["conv".into(), "base".into()];
+    cfg
+}
+
 /// two convertible and two quote denominations
 pub fn multi(mut cfg: Cfg) -> Cfg {
     cfg.convs = vec!["conv".into(), "conv2".into()];
@@ -236,6 +242,7 @@ fn ledger_scenarios(tier: Tier, extra_probes: &dyn Fn(&Cfg, &Menu) -> Vec<Act>) 
     mk("B11/P2/F1/R0", Cfg::new(1, 10, ("0.25", "0.25"), "R0"), menu_p2(1, 1), &mut v);
     mk("B11/p14/large-amounts", Cfg::new(14, 300_000_000_000_000, ("0.25", "0.25"), "R0"), menu_large(1, 1), &mut v);
     mk("B11/multi-denom/nrnur", with_markers(multi(Cfg::new(0, 2, ("0.25", "0.25"), "R0")), "nrnur"), menu_multi(1, 1), &mut v);
+    mk("B11/base-also-convertible", overlap(Cfg::new(0, 2, ("0.25", "0.25"), "R0")), menu_p1(1, 1), &mut v);
     if tier == Tier::Thorough {
         mk("B21/multi-denom", multi(Cfg::new(0, 2, ("0.25", "0.25"), "R0")), menu_multi(2, 1), &mut v);
         mk("B12/multi-denom/rrrnn", with_markers(multi(Cfg::new(0, 2, ("0.25", "0.25"), "R1")), "rrrnn"), menu_multi(1, 2), &mut v);
@@ -370,6 +377,7 @@ pub fn plan(prop: &str, tier: Tier) -> Plan {
             mk("B11/P1/F1/rnn", with_markers(Cfg::new(0, 2, ("0.25", "0.25"), "R0"), "rnn"), small(menu_p1(1, 1)), &mut v);
             mk("B11/P1/F1/unr", with_markers(Cfg::new(0, 2, ("0.25", "0.25"), "R0"), "unr"), small(menu_p1(1, 1)), &mut v);
             mk("B11/P1/F1/rrr", with_markers(Cfg::new(0, 2, ("0.25", "0.25"), "R0"), "rrr"), small(menu_p1(1, 1)), &mut v);
+            mk("B11/base-also-convertible", overlap(Cfg::new(0, 2, ("0.25", "0.25"), "R0")), small(menu_p1(1, 1)), &mut v);
             mk("B11/P1/F1/attrs1", with_attrs(Cfg::new(0, 2, ("0.25", "0.25"), "R0"), &["kyc"], &["kyc"]), small(menu_p1(1, 1)), &mut v);
             mk("B11/P1/F1/attrs2", with_attrs(Cfg::new(0, 2, ("0.25", "0.25"), "R0"), &["kyc", "acc"], &["acc", "kyc"]), small(menu_p1(1, 1)), &mut v);
             if th {
